@@ -19,10 +19,12 @@ import (
 //         u<i>:<keyspace text as written, hex>   client i sends USE <text>
 //         q<i>                                    client i sends a data request (forwarded)
 //         e<i>                                    client i PREPAREs a statement and EXECUTEs it (the EXECUTE is the data request)
+//         s<i>:<statement, hex>                   client i sends a QUERY on a virtual system table (well-formed or not): the proxy answers it itself, once
 //         k                                       every pooled backend connection is lost (the pools reconnect)
 //       keyspaces whose canonical name starts with "missing" do not exist on the backend
 // real: one token per action: USE -> "set:<keyspace named in the reply>" | "err:<message class>" ;
-//       data -> "at:<backend connection keyspace>/<version>/<compression>" | other
+//       data -> "at:<backend connection keyspace>/<version>/<compression>" | other ;
+//       system -> "local:<rows|invalid|error|other>" [+extra a second frame came] [+fwd something reached a backend]
 
 func init() { streams["ks"] = stream{gen: genKs, run: runKs} }
 
@@ -134,6 +136,31 @@ func runKs(op string) (out string) {
 					res[len(res)-1] += "+extra"
 				}
 			}
+		case 's':
+			before := env.Cluster.LogLen()
+			_ = cl.Send(6, &message.Query{Query: string(unhex(p[1])), Options: &message.QueryOptions{Consistency: primitive.ConsistencyLevelOne}})
+			r, err := cl.Recv(4 * time.Second)
+			tok := "none"
+			if err == nil && r.Frame != nil {
+				switch m := r.Frame.Body.Message.(type) {
+				case *message.RowsResult:
+					tok = "local:rows"
+				case *message.Invalid:
+					tok = "local:invalid"
+				case message.Error:
+					_ = m
+					tok = "local:error"
+				default:
+					tok = "local:other"
+				}
+				if quiet, _ := cl.Quiet(30 * time.Millisecond); !quiet {
+					tok += "+extra"
+				}
+				if env.Cluster.LogLen() > before {
+					tok += "+fwd"
+				}
+			}
+			res = append(res, tok)
 		case 'q', 'e':
 			token++
 			q := fmt.Sprintf("INSERT INTO t (k) VALUES (1) /*t%d*/", token)
@@ -202,8 +229,12 @@ func genKs(e *emitter, r *rng.R, n int, tier string) {
 		for c := 0; c < l; c++ {
 			parts = append(parts, fmt.Sprintf("C%d:%d:%s", c, []int{3, 4, 4}[rr.Intn(3)], rr.Pick([]string{"-", "-", "lz4", "snappy"})))
 		}
+		sysq := []string{"SELECT * FROM system.local", "SELECT DISTINCT key FROM system.local", "SELECT JSON * FROM system.local", "SELECT key, FROM system.peers", "SELECT nope FROM system.peers",
+			"SELECT count( FROM system.local", "SELECT key AS FROM system.local", "SELECT peer AS p FROM system.peers", "SELECT * FROM system.peers WHERE", "SELECT 'x' FROM system.local", "SELECT key FROM system.local LIMIT"}
 		for j := 0; j < 3+rr.Intn(8); j++ {
-			switch c := rr.Intn(12); {
+			switch c := rr.Intn(14); {
+			case c >= 12:
+				parts = append(parts, fmt.Sprintf("s%d:%s", rr.Intn(l), hexs(rr.Pick(sysq))))
 			case c < 5:
 				parts = append(parts, fmt.Sprintf("u%d:%s", rr.Intn(l), hexs(rr.Pick(names))))
 			case c < 9:
